@@ -198,7 +198,10 @@ def handleTopK (c : Case) (hdr : List String) : CaseOut := Id.run do
     | _ => return { model := #[], verdict := .skip s!"unparsable op '{l}'" }
   let S : TopK.Std := ⟨fun l _ => Sorting.isort l, Sorting.isort⟩
   let m := TopK.topK S xs k
-  let model := #[s!"D out={csvI m} n={m.length}"]
+  -- the harness calls `top_k` through five `IntoIterator` shapes (slice iterator, Vec, filter, from_fn, flat_map:
+  -- different `size_hint`s); the result is a function of the item sequence alone
+  let shapes := ["out", "out_vec", "out_filter", "out_fromfn", "out_flatmap"]
+  let model := (shapes.map fun nm => s!"D {nm}={csvI m} n={m.length}").toArray
   let stats := [("nontrivial", bit (k ≥ 1 && xs.length ≥ 2 * k)), stat "topk" 1, stat "n" xs.length, stat "k" k,
                 stat "k_gt_len" (if k > xs.length then 1 else 0),
                 stat "k_huge" (if k ≥ 2 ^ 31 then 1 else 0)]
@@ -206,14 +209,17 @@ def handleTopK (c : Case) (hdr : List String) : CaseOut := Id.run do
   match implBroken c.impl with
   | some w => return { model := model, verdict := .fail s!"top_k of {xs.length} items, k={k}: implementation {w}", stats := stats }
   | none => pure ()
-  let line := c.impl.getD 0 ""
-  match (field line "out").bind parseCsvI with
-  | none => return { model := model, verdict := .fail s!"no top_k output: [{line}]", stats := stats }
-  | some out =>
-    if out != expected then
-      return { model := model, stats := stats,
-               verdict := .fail s!"top_k(k={k}) is not the k smallest items in order: expected [{csvI expected}] got [{csvI out}]" }
-    return { model := model, verdict := .ok, stats := stats }
+  let mut i := 0
+  for nm in shapes do
+    let line := c.impl.getD i ""
+    match (field line nm).bind parseCsvI with
+    | none => return { model := model, verdict := .fail s!"no top_k output {nm}: [{line}]", stats := stats }
+    | some out =>
+      if out != expected then
+        return { model := model, stats := stats,
+                 verdict := .fail s!"top_k(k={k}) [{nm}] is not the k smallest items in order: expected [{csvI expected}] got [{csvI out}]" }
+    i := i + 1
+  return { model := model, verdict := .ok, stats := stats }
 
 /-! ### Fenwick tree -/
 
